@@ -24,10 +24,10 @@ class Reference:
     def apply(self, op):
         k = op['op']
         if k == 'poll' and not op.get('nc') and op.get('rt', 1) == 1:
-            if all(tp.get('conv', True) for tp in op['tps']):
-                self.latest_hash = op['hash']
-                self.latest = [tkey(tp) for tp in op['tps'] if tp.get('interp', True)]
-                self.updates.append(op['hash'])
+            # an UPDATE is taken with the tracepoints the agent can convert and interpret; the others are skipped
+            self.latest_hash = op['hash']
+            self.latest = [tkey(tp) for tp in op['tps'] if tp.get('interp', True) and tp.get('conv', True)]
+            self.updates.append(op['hash'])
         elif k == 'register':
             if op.get('interp', True):      # a registration the agent cannot interpret is never active
                 self.live[self.nreg] = tkey(op)
@@ -221,6 +221,7 @@ class Sched:
         tps = [self.tp('m') for _ in range(self.rng.randint(1, 3))]
         self.rng.choice(tps)['conv'] = False
         self.emit({'op': 'poll', 'nc': False, 'rt': 1, 'ts': self.next_ts(), 'hash': self.fresh_tag('bad'), 'tps': tps})
+        self.queued += 1
 
     def apply(self, i=None):
         """one whole task, atomically (only when nobody holds a value)"""
@@ -333,7 +334,9 @@ def preempt_oracle(case, obs):
     if obs.get('bench_error'):
         return []
     ref = Reference()
-    for op in case['prefix'] + [case['victim'], case['intruder']]:
+    # handles are numbered in the order the calls RETURN: a parked victim returns after the intruder
+    pair = [case['intruder'], case['victim']] if obs.get('reached') else [case['victim'], case['intruder']]
+    for op in case['prefix'] + pair + case.get('then', []):
         ref.apply(op)
     # a register made by the victim may complete after the intruder's: handles are not compared, tags are
     where = f'victim {case["victim"]["op"]} parked before its line #{case["k"]} in tracepoint_config.py ' \
@@ -346,6 +349,10 @@ def preempt_oracle(case, obs):
             v.append(f'{where}: poll raised {r["poll_raised"]}')
     if obs.get('task_raised'):
         v.append(f'{where}: apply task raised {obs["task_raised"]}')
+    if obs.get('then_raised'):
+        v.append(f'{where}: a later call raised {obs["then_raised"]}')
+    if case.get('then'):
+        where += ', then ' + ', '.join('%s %s' % (o['op'], o.get('handle', o.get('tag', ''))) for o in case['then'])
     f = obs.get('final')
     if f is None:
         return v
